@@ -509,7 +509,10 @@ def check_action(ctx, opts, tagp="a"):
             argv = cli_argv(o, [path])
             # raw args are word-split by the wrapper: put the positional first so that a trailing
             # --mutators list cannot swallow it (that is plain CLI syntax, not the wrapper's job)
-            raw = " ".join([path] + cli_argv(o, []))
+            # the wrapper word-splits the value on any run of blanks, tabs and newlines (a YAML
+            # "args: |" block puts every option on its own line and ends with a newline)
+            ws = [" ", "\n", "\t", "  ", " \n  ", "\n\n"][i % 6]
+            raw = ws.join([path] + cli_argv(o, [])) + ("\n" if i % 2 else "")
             env = dict(base_env, INPUT_ARGS=raw, INPUT_SEED="999", INPUT_PROTOCOL="1")   # other inputs must be ignored
             r = subprocess.run(["bash", script], env=env, stdout=subprocess.PIPE, stderr=subprocess.PIPE, text=True)
             files["out"] = open(path, "rb").read() if os.path.isfile(path) else None
